@@ -1,6 +1,621 @@
-//! C06 — not built yet.
-use crate::report::{Ctx, Reporter};
+//! C06 — HTTP/1 connections are time-bounded: slow head, keep-alive, shutdown, drain.
+//!
+//! Everything runs on the paused tokio clock: a timeline of events on a 50 ms grid is applied with
+//! `Advance` steps in between, so every observation carries an exact virtual time stamp and the
+//! verdict does not depend on machine load.  The server computes deadlines from a clock cached
+//! every 500 ms, so a deadline D is accepted anywhere in [D − 500 ms, D + 2 steps]; events falling
+//! inside that window may go either way.
 
-pub fn run(_ctx: &Ctx, rep: &mut Reporter) {
-    rep.inconclusive("C06 monitor not built");
+use serde_json::{json, Value};
+
+use crate::{
+    refmodel::h1_resp::{self, RefResp},
+    report::{guard, panic_site, Ctx, Reporter},
+    util::Rng,
+    world::{
+        conn::ConnCfg,
+        run::{acts_from_json, acts_to_json, run_scenario, Act, Outcome, Scenario},
+        svc::{fill_data, BStep, BodyKind, Prog},
+    },
+};
+
+const STEP: u64 = 50;
+const CACHE_LAG: u64 = 500;
+const SLACK: u64 = 2 * STEP;
+
+#[derive(Clone, Debug)]
+pub struct Case {
+    pub kind: &'static str,
+    pub cfg: ConnCfg,
+    pub progs: Vec<Prog>,
+    /// (time ms, action) — sorted by time; expanded into Advance steps
+    pub events: Vec<(u64, Act)>,
+    pub horizon_ms: u64,
+    /// kind-specific parameters for the oracle
+    pub params: Value,
+}
+
+impl Case {
+    fn scenario(&self) -> Scenario {
+        let mut sc = Scenario::new(self.cfg.clone(), self.progs.clone(), 8);
+        let mut now = 0u64;
+        let mut ev = self.events.clone();
+        ev.sort_by_key(|e| e.0);
+        for (t, a) in ev {
+            while now < t {
+                let d = (t - now).min(STEP);
+                sc.acts.push(Act::Advance(d));
+                now += d;
+            }
+            sc.acts.push(a);
+        }
+        while now < self.horizon_ms {
+            sc.acts.push(Act::Advance(STEP));
+            now += STEP;
+        }
+        sc
+    }
+    fn to_json(&self) -> Value {
+        json!({"kind": self.kind, "cfg": self.cfg.to_json(), "progs": self.progs.iter().map(|p| p.to_json()).collect::<Vec<_>>(),
+            "events": self.events.iter().map(|(t, a)| json!([t, a.to_json()])).collect::<Vec<_>>(), "horizon_ms": self.horizon_ms, "params": self.params})
+    }
+    fn from_json(v: &Value) -> Case {
+        let kind = match v["kind"].as_str() {
+            Some("keep-alive") => "keep-alive",
+            Some("disconnect") => "disconnect",
+            Some("graceful") => "graceful",
+            _ => "slow-head",
+        };
+        Case {
+            kind,
+            cfg: ConnCfg::from_json(&v["cfg"]),
+            progs: v["progs"].as_array().map(|a| a.iter().map(Prog::from_json).collect()).unwrap_or_default(),
+            events: v["events"].as_array().map(|a| a.iter().filter_map(|e| Some((e[0].as_u64()?, acts_from_json(&json!([e[1].clone()])).into_iter().next()?))).collect()).unwrap_or_default(),
+            horizon_ms: v["horizon_ms"].as_u64().unwrap_or(1000),
+            params: v["params"].clone(),
+        }
+    }
+}
+
+struct Verdict {
+    class: &'static str,
+    sig: String,
+    detail: String,
+}
+
+struct Seen {
+    resps: Vec<RefResp>,
+    /// virtual time at which the first byte of each parsed response was accepted by the socket
+    resp_t: Vec<u64>,
+    /// first time the connection task had finished or the socket had been shut down / dropped
+    closed_t: Option<u64>,
+    /// first time the server called shutdown on the socket
+    shutdown_start_t: Option<u64>,
+    done_t: Option<u64>,
+}
+
+fn observe(oc: &Outcome) -> Seen {
+    let rp = h1_resp::parse_responses(&oc.out, &|_| Some("GET".into()), true);
+    let resp_t = rp.resps.iter().map(|r| oc.write_times.iter().find(|(len, _)| *len > r.start).map(|x| x.1).unwrap_or(u64::MAX)).collect();
+    Seen {
+        resp_t,
+        resps: rp.resps,
+        closed_t: oc.snaps.iter().find(|s| s.done || s.closed).map(|s| s.t_ms),
+        shutdown_start_t: oc.snaps.iter().find(|s| s.shutdown_calls > 0 || s.done).map(|s| s.t_ms),
+        done_t: oc.snaps.iter().find(|s| s.done).map(|s| s.t_ms),
+    }
+}
+
+fn in_window(t: u64, deadline: u64) -> bool {
+    t + CACHE_LAG >= deadline && t <= deadline + SLACK
+}
+
+fn cfg_sig(c: &ConnCfg) -> String {
+    format!("req={} ka={:?} disc={}", c.req_timeout_ms, c.keep_alive_s, c.disc_timeout_ms)
+}
+
+fn judge(case: &Case, oc: &Outcome) -> Vec<Verdict> {
+    let mut v = vec![];
+    let s = observe(oc);
+    let p = &case.params;
+    if oc.livelock {
+        v.push(Verdict { class: "livelock", sig: case.kind.into(), detail: "poll cap hit".into() });
+        return v;
+    }
+    match case.kind {
+        "slow-head" => {
+            let t = case.cfg.req_timeout_ms;
+            let head_done = p["head_complete_ms"].as_u64().unwrap_or(u64::MAX);
+            let never = p["head_never_completes"].as_bool().unwrap_or(false);
+            let got408 = s.resps.iter().position(|r| r.status == 408);
+            let served = !oc.reqs.is_empty();
+            if t == 0 {
+                if got408.is_some() {
+                    v.push(Verdict { class: "408-with-timeout-disabled", sig: cfg_sig(&case.cfg), detail: "client request timeout is disabled but a 408 was sent".into() });
+                }
+                if !never && !served {
+                    v.push(Verdict { class: "slow-request-not-served", sig: "timeout-disabled".into(), detail: format!("head complete at {head_done} ms with the request timeout disabled, but no handler ran") });
+                }
+                return v;
+            }
+            let must_serve = !never && head_done + CACHE_LAG + SLACK <= t;
+            let must_timeout = never || head_done >= t + SLACK;
+            if must_serve {
+                if got408.is_some() || !served {
+                    v.push(Verdict {
+                        class: "timely-head-not-served",
+                        sig: cfg_sig(&case.cfg),
+                        detail: format!("head complete at {head_done} ms, request timeout {t} ms: expected the request to be served; 408 sent: {}, handler ran: {served}", got408.is_some()),
+                    });
+                }
+            } else if must_timeout {
+                match got408 {
+                    None => v.push(Verdict {
+                        class: "slow-head-no-408",
+                        sig: cfg_sig(&case.cfg),
+                        detail: format!("head {} (timeout {t} ms) but no 408 was written within the horizon {} ms; handler ran: {served}; responses {:?}", if never { "never completes".to_string() } else { format!("complete only at {head_done} ms") }, case.horizon_ms, s.resps.iter().map(|r| r.status).collect::<Vec<_>>()),
+                    }),
+                    Some(k) => {
+                        if !in_window(s.resp_t[k], t) {
+                            v.push(Verdict { class: "408-outside-window", sig: cfg_sig(&case.cfg), detail: format!("408 written at {} ms, deadline {t} ms (accepted {}..={})", s.resp_t[k], t.saturating_sub(CACHE_LAG), t + SLACK) });
+                        }
+                        if served {
+                            v.push(Verdict { class: "served-after-408", sig: cfg_sig(&case.cfg), detail: "a handler ran on a connection that was answered 408".into() });
+                        }
+                        // closed: at once when no disconnect timeout is configured or the peer lets
+                        // the shutdown complete; otherwise within the disconnect timeout
+                        let bound = t + SLACK + if p["shutdown_blocked"].as_bool().unwrap_or(false) { case.cfg.disc_timeout_ms + SLACK } else { 0 };
+                        let blocked_forever = p["shutdown_blocked"].as_bool().unwrap_or(false) && case.cfg.disc_timeout_ms == 0;
+                        if !blocked_forever {
+                            match s.done_t {
+                                Some(d) if d <= bound => {}
+                                other => v.push(Verdict { class: "not-closed-after-408", sig: cfg_sig(&case.cfg), detail: format!("connection finished at {other:?}, expected by {bound} ms after the 408 at {} ms", s.resp_t[k]) }),
+                            }
+                        }
+                    }
+                }
+            }
+        }
+        "keep-alive" => {
+            let Some(k) = case.cfg.keep_alive_s.map(|x| x * 1000) else {
+                // keep-alive disabled: the connection ends right after the first response
+                match s.done_t {
+                    Some(d) if d <= p["first_response_by_ms"].as_u64().unwrap_or(0) + SLACK => {}
+                    other => v.push(Verdict { class: "keep-alive-disabled-not-closed", sig: cfg_sig(&case.cfg), detail: format!("keep-alive disabled but the connection finished at {other:?}") }),
+                }
+                return v;
+            };
+            // idle starts when the last response before the gap was written
+            let n_before = p["requests_before_gap"].as_u64().unwrap_or(1) as usize;
+            let finals: Vec<usize> = (0..s.resps.len()).filter(|&i| !s.resps[i].is_interim()).collect();
+            if finals.len() < n_before {
+                v.push(Verdict { class: "request-before-idle-not-served", sig: cfg_sig(&case.cfg), detail: format!("{} of {n_before} requests sent before the idle period were answered", finals.len()) });
+                return v;
+            }
+            let idle_from = p["idle_from_ms"].as_u64().unwrap_or(0);
+            let deadline = idle_from + k;
+            let next_at = p["next_request_ms"].as_u64();
+            match next_at {
+                Some(a) if a + CACHE_LAG + SLACK <= deadline => {
+                    if oc.reqs.len() <= n_before || finals.len() <= n_before {
+                        v.push(Verdict {
+                            class: "timely-request-not-served",
+                            sig: cfg_sig(&case.cfg),
+                            detail: format!("request arriving at {a} ms on a connection idle since {idle_from} ms with keep-alive {k} ms was not served (closed at {:?})", s.closed_t),
+                        });
+                    }
+                }
+                Some(a) if a < deadline + SLACK => {} // inside the window: either outcome
+                _ => {
+                    // nothing arrives before the deadline: the connection must close in the window
+                    let closing_t = s.shutdown_start_t;
+                    match closing_t {
+                        Some(t) if in_window(t, deadline) => {}
+                        Some(t) if t + CACHE_LAG < deadline => v.push(Verdict {
+                            class: "closed-before-keep-alive-elapsed",
+                            sig: cfg_sig(&case.cfg),
+                            detail: format!("idle since {idle_from} ms, keep-alive {k} ms, but the server started closing at {t} ms"),
+                        }),
+                        other => v.push(Verdict {
+                            class: "idle-connection-not-closed",
+                            sig: cfg_sig(&case.cfg),
+                            detail: format!("idle since {idle_from} ms, keep-alive {k} ms: expected closing in {}..={} ms, observed {other:?}", deadline - CACHE_LAG, deadline + SLACK),
+                        }),
+                    }
+                    if next_at.is_some() && oc.reqs.len() > n_before {
+                        v.push(Verdict { class: "served-after-keep-alive-expiry", sig: cfg_sig(&case.cfg), detail: format!("request arriving at {:?} ms, after the keep-alive deadline {deadline} ms, was served", next_at) });
+                    }
+                }
+            }
+        }
+        "disconnect" => {
+            // a shutdown that the peer never completes must be cut off by the disconnect timeout
+            let d = case.cfg.disc_timeout_ms;
+            let Some(start) = s.shutdown_start_t else {
+                v.push(Verdict { class: "shutdown-never-started", sig: cfg_sig(&case.cfg), detail: format!("expected the server to start shutting down (trigger: {})", p["trigger"]) });
+                return v;
+            };
+            if d > 0 {
+                // the deadline is measured from a cached clock: allow the lag on the early side
+                let bound = start + d + SLACK;
+                match s.done_t {
+                    Some(t) if t <= bound => {}
+                    other => v.push(Verdict {
+                        class: "shutdown-outlasts-disconnect-timeout",
+                        sig: format!("{} trigger={}", cfg_sig(&case.cfg), p["trigger"].as_str().unwrap_or("")),
+                        detail: format!("shutdown started at {start} ms, disconnect timeout {d} ms, connection task finished at {other:?} (bound {bound} ms)"),
+                    }),
+                }
+            }
+        }
+        "graceful" => {
+            let sig_t = p["signal_ms"].as_u64().unwrap_or(0);
+            // requests whose handler had not started when the signal fired must never start
+            for r in &oc.reqs {
+                if r.t_ms > sig_t {
+                    v.push(Verdict {
+                        class: "request-started-after-shutdown-signal",
+                        sig: p["phase"].as_str().unwrap_or("").to_string(),
+                        detail: format!("handler for {} started at {} ms, after the graceful-shutdown signal at {sig_t} ms", r.target, r.t_ms),
+                    });
+                }
+            }
+            // the request in flight at the signal is still answered
+            let inflight: Vec<usize> = oc.reqs.iter().filter(|r| r.t_ms <= sig_t).map(|r| r.idx).collect();
+            let finals: Vec<&RefResp> = s.resps.iter().filter(|r| !r.is_interim()).collect();
+            for &i in &inflight {
+                match finals.iter().find(|r| r.req_idx_header() == Some(i)) {
+                    None => v.push(Verdict { class: "in-flight-request-not-answered", sig: p["phase"].as_str().unwrap_or("").to_string(), detail: format!("request #{i} was being handled when the signal fired at {sig_t} ms but no response to it was written") }),
+                    Some(r) => {
+                        if !r.complete {
+                            v.push(Verdict { class: "in-flight-response-cut", sig: p["phase"].as_str().unwrap_or("").to_string(), detail: format!("response to in-flight request #{i} is incomplete") });
+                        }
+                        // `connection: close` is owed when the head was encoded after the signal
+                        let pos = s.resps.iter().position(|x| std::ptr::eq(x, *r)).unwrap();
+                        let head_t = s.resp_t[pos];
+                        let answered_after_signal = oc.reqs[i].responded_seq != 0 && p["respond_after_signal"].as_array().map(|a| a.iter().any(|x| x.as_u64() == Some(i as u64))).unwrap_or(false);
+                        if answered_after_signal && head_t > sig_t && !r.has_close() && r.version == 11 {
+                            v.push(Verdict {
+                                class: "in-flight-response-without-close",
+                                sig: p["phase"].as_str().unwrap_or("").to_string(),
+                                detail: format!("response to request #{i} was produced after the shutdown signal ({sig_t} ms) but does not announce connection: close"),
+                            });
+                        }
+                    }
+                }
+            }
+            // and the connection ends (everything is enabled by the end of the timeline)
+            if s.done_t.is_none() && s.closed_t.is_none() {
+                v.push(Verdict { class: "not-closed-after-shutdown-signal", sig: p["phase"].as_str().unwrap_or("").to_string(), detail: format!("signal at {sig_t} ms, horizon {} ms: connection still open", case.horizon_ms) });
+            }
+            if p["phase"] == "idle" || p["phase"] == "partial-head" {
+                match s.shutdown_start_t {
+                    Some(t) if t <= sig_t + SLACK => {}
+                    other => v.push(Verdict { class: "idle-connection-not-closed-on-signal", sig: p["phase"].as_str().unwrap_or("").to_string(), detail: format!("idle connection: signal at {sig_t} ms, closing started at {other:?}") }),
+                }
+            }
+        }
+        _ => {}
+    }
+    v
+}
+
+fn eval_case(case: &Case, rep: &mut Reporter) {
+    rep.eval();
+    let sc = case.scenario();
+    let oc = match guard(|| run_scenario(&sc)) {
+        Ok(o) => o,
+        Err(p) => {
+            rep.violation("panic", &panic_site(&p), &format!("panic: {p}"), case.to_json());
+            return;
+        }
+    };
+    if std::env::var("AVMON_DEBUG").is_ok() {
+        crate::world::run::debug_dump(&sc, &oc);
+        eprintln!("write_times={:?}", oc.write_times);
+    }
+    let s = observe(&oc);
+    rep.count(&format!("kind:{}", case.kind), 1);
+    for r in &s.resps {
+        rep.count(&format!("status:{}", r.status), 1);
+    }
+    if s.done_t.is_some() {
+        rep.count("connections_finished", 1);
+    }
+    rep.count("handler_invocations", oc.reqs.len() as u64);
+    for vd in judge(case, &oc) {
+        let detail = format!("{} | kind={} cfg={} params={}", vd.detail, case.kind, cfg_sig(&case.cfg), case.params);
+        rep.violation(vd.class, &vd.sig, &detail, case.to_json());
+    }
+}
+
+// ------------------------------------------------------------------------------------ generators
+
+const REQ: &[u8] = b"GET /r0 HTTP/1.1\r\nHost: t\r\nX-Pad: 0123456789\r\n\r\n";
+
+fn req(i: usize) -> Vec<u8> {
+    format!("GET /r{i} HTTP/1.1\r\nHost: t\r\n\r\n").into_bytes()
+}
+
+fn grid(ms: u64) -> u64 {
+    ms / STEP * STEP
+}
+
+/// ordering class of an instant relative to a deadline window
+fn rel(t: u64, deadline: u64) -> &'static str {
+    if t + CACHE_LAG + SLACK <= deadline {
+        "before"
+    } else if t >= deadline + SLACK {
+        "after"
+    } else {
+        "window"
+    }
+}
+
+fn slow_head(rng: &mut Rng, fixed: Option<(u64, u64, bool)>) -> Case {
+    let (t, head_done, blocked) = fixed.unwrap_or_else(|| {
+        let t = *rng.pick(&[0u64, 1000, 3000]);
+        let base = if t == 0 { 3000 } else { t };
+        (t, grid(rng.range(0, (base + 1500) as usize) as u64), rng.chance(1, 4))
+    });
+    let never = rng.chance(1, 6) && fixed.is_none();
+    let mut cfg = ConnCfg::persistent();
+    cfg.req_timeout_ms = t;
+    cfg.disc_timeout_ms = *rng.pick(&[0u64, 1000]);
+    // head in 1–4 pieces, the last one at `head_done`
+    let pieces = rng.range(1, 4);
+    let mut cuts: Vec<usize> = (0..pieces - 1).map(|_| rng.range(1, REQ.len() - 1)).collect();
+    cuts.sort_unstable();
+    cuts.dedup();
+    let segs = crate::util::split_at_cuts(REQ, &cuts);
+    let mut events = vec![];
+    let nseg = segs.len();
+    // arrival times in piece order (non-decreasing), the last piece at `head_done`
+    let mut times: Vec<u64> = (0..nseg - 1).map(|_| grid(rng.range(0, head_done as usize + 1) as u64).min(head_done)).collect();
+    times.sort_unstable();
+    times.push(head_done);
+    for (i, sg) in segs.into_iter().enumerate() {
+        if never && i + 1 == nseg {
+            break;
+        }
+        // same-time events keep their order (the sort in `scenario` is stable)
+        events.push((times[i], Act::Push(sg)));
+    }
+    if blocked {
+        events.push((0, Act::BlockShutdown(true)));
+    }
+    let horizon = t.max(head_done) + 2500 + cfg.disc_timeout_ms;
+    Case {
+        kind: "slow-head",
+        cfg,
+        progs: vec![],
+        events,
+        horizon_ms: horizon,
+        params: json!({"head_complete_ms": head_done, "head_never_completes": never, "shutdown_blocked": blocked}),
+    }
+}
+
+fn keep_alive(rng: &mut Rng, fixed: Option<(u64, Option<u64>)>) -> Case {
+    let mut cfg = ConnCfg::persistent();
+    let (k, next) = fixed.unwrap_or_else(|| {
+        let k = *rng.pick(&[1u64, 2, 5]);
+        let next = if rng.chance(1, 4) { None } else { Some(grid(rng.range((k * 1000).saturating_sub(1200) as usize, (k * 1000 + 700) as usize) as u64)) };
+        (k, next)
+    });
+    cfg.keep_alive_s = if rng.chance(1, 12) && fixed.is_none() { None } else { Some(k) };
+    cfg.disc_timeout_ms = *rng.pick(&[0u64, 1000]);
+    cfg.req_timeout_ms = *rng.pick(&[0u64, 1000]);
+    // request 0 at t0; optionally its handler / body is slow (longer than the keep-alive time):
+    // keep-alive only starts counting when the response is complete
+    let slow = rng.chance(1, 3);
+    let mut progs = vec![Prog::default()];
+    let mut events = vec![(0u64, Act::Push(req(0)))];
+    let mut idle_from = 0u64;
+    if slow {
+        let g = grid(rng.range(500, (k * 1000 + 1500) as usize) as u64);
+        if rng.chance(1, 2) {
+            progs[0].post_gate = Some(0);
+        } else {
+            progs[0].kind = BodyKind::BodyStream;
+            progs[0].steps = vec![BStep::Data(fill_data(5, 1)), BStep::Wait(0), BStep::Data(fill_data(5, 2))];
+        }
+        events.push((g, Act::Gate(0, 1)));
+        idle_from = g;
+    }
+    // optionally a second request well inside the first keep-alive period: the timer restarts
+    let mut n_before = 1usize;
+    if rng.chance(1, 3) && cfg.keep_alive_s.is_some() && k >= 2 {
+        let a = idle_from + grid(rng.range(100, 900) as u64);
+        events.push((a, Act::Push(req(1))));
+        idle_from = a;
+        n_before = 2;
+    }
+    let next_abs = next.map(|n| idle_from + n);
+    if let Some(a) = next_abs {
+        events.push((a, Act::Push(req(n_before))));
+    }
+    let horizon = idle_from + k * 1000 + 2500 + cfg.disc_timeout_ms;
+    let ord = match (cfg.keep_alive_s, next_abs) {
+        (None, _) => "disabled",
+        (Some(_), None) => "none",
+        (Some(kk), Some(a)) => rel(a, idle_from + kk * 1000),
+    };
+    Case {
+        kind: "keep-alive",
+        cfg,
+        progs,
+        events,
+        horizon_ms: horizon,
+        params: json!({"idle_from_ms": idle_from, "next_request_ms": next_abs, "requests_before_gap": n_before, "first_response_by_ms": idle_from, "slow_response": slow, "ordering": ord}),
+    }
+}
+
+fn disconnect(rng: &mut Rng) -> Case {
+    let mut cfg = ConnCfg::persistent();
+    cfg.disc_timeout_ms = *rng.pick(&[1000u64, 3000]);
+    let trigger = *rng.pick(&["keep-alive-expiry", "408", "linger-unread-body", "peer-eof"]);
+    let mut events = vec![(0u64, Act::BlockShutdown(true))];
+    let mut progs = vec![];
+    let mut horizon = 0;
+    match trigger {
+        "keep-alive-expiry" => {
+            cfg.keep_alive_s = Some(1);
+            events.push((0, Act::Push(req(0))));
+            horizon = 1000;
+        }
+        "408" => {
+            cfg.req_timeout_ms = 1000;
+            events.push((0, Act::Push(REQ[..20].to_vec())));
+            horizon = 1000;
+        }
+        "linger-unread-body" => {
+            // early response to a request whose Content-Length body never arrives completely; the
+            // peer keeps trickling bytes and never closes
+            events.push((0, Act::Push(b"POST /r0 HTTP/1.1\r\nHost: t\r\nContent-Length: 100000\r\n\r\nabc".to_vec())));
+            progs.push(Prog { read: crate::world::svc::ReadMode::Ignore, ..Default::default() });
+            for i in 1..rng.range(2, 30) as u64 {
+                events.push((i * 200, Act::Push(vec![b'x'; 10])));
+            }
+            horizon = 0;
+        }
+        _ => {
+            events.push((0, Act::Push(req(0))));
+            events.push((grid(rng.range(0, 800) as u64), Act::Eof));
+            horizon = 800;
+        }
+    }
+    horizon += cfg.disc_timeout_ms + 7000;
+    Case { kind: "disconnect", cfg, progs, events, horizon_ms: horizon, params: json!({"trigger": trigger}) }
+}
+
+fn graceful(rng: &mut Rng, phase_fixed: Option<&'static str>) -> Case {
+    let mut cfg = ConnCfg::persistent();
+    cfg.shutdown_gate = Some(7);
+    cfg.disc_timeout_ms = *rng.pick(&[0u64, 1000]);
+    let phase = phase_fixed.unwrap_or_else(|| *rng.pick(&["idle", "partial-head", "handler", "body", "queued", "between-requests"]));
+    let sig = grid(rng.range(200, 1500) as u64);
+    let mut events: Vec<(u64, Act)> = vec![];
+    let mut progs = vec![];
+    let mut respond_after: Vec<usize> = vec![];
+    match phase {
+        "idle" => {}
+        "partial-head" => {
+            events.push((grid(rng.range(0, sig as usize) as u64), Act::Push(REQ[..rng.range(1, REQ.len() - 1)].to_vec())));
+        }
+        "handler" | "queued" => {
+            // request 0 arrives before the signal, its handler answers after it
+            progs.push(Prog { post_gate: Some(0), ..Default::default() });
+            events.push((grid(rng.range(0, (sig - 50) as usize) as u64), Act::Push(req(0))));
+            events.push((sig + grid(rng.range(50, 800) as u64), Act::Gate(0, 1)));
+            respond_after.push(0);
+            if phase == "queued" {
+                // more requests pipelined behind it before the signal: decoded and queued
+                let t1 = grid(rng.range(0, (sig - 50) as usize) as u64);
+                let mut all = req(1);
+                all.extend_from_slice(&req(2));
+                events.push((t1.max(events[0].0), Act::Push(all)));
+            }
+        }
+        "body" => {
+            // head and first chunk written before the signal, the rest after
+            progs.push(Prog { kind: BodyKind::BodyStream, steps: vec![BStep::Data(fill_data(5, 1)), BStep::Wait(0), BStep::Data(fill_data(5, 2))], ..Default::default() });
+            events.push((grid(rng.range(0, (sig - 50) as usize) as u64), Act::Push(req(0))));
+            events.push((sig + grid(rng.range(50, 800) as u64), Act::Gate(0, 1)));
+        }
+        _ => {
+            // one request served completely before the signal; idle in keep-alive when it fires
+            events.push((0, Act::Push(req(0))));
+        }
+    }
+    events.push((sig, Act::Gate(7, 1)));
+    // a request arriving after the signal must not be started
+    if rng.chance(1, 2) && phase != "partial-head" {
+        let next = oc_next_idx(phase);
+        events.push((sig + grid(rng.range(50, 1500) as u64), Act::Push(req(next))));
+    }
+    Case { kind: "graceful", cfg, progs, events, horizon_ms: sig + 4000, params: json!({"signal_ms": sig, "phase": phase, "respond_after_signal": respond_after}) }
+}
+
+fn oc_next_idx(phase: &str) -> usize {
+    match phase {
+        "idle" => 0,
+        "queued" => 3,
+        _ => 1,
+    }
+}
+
+pub fn run(ctx: &Ctx, rep: &mut Reporter) {
+    if let Some(r) = &ctx.replay {
+        eval_case(&Case::from_json(r), rep);
+        rep.sig("replay-a");
+        rep.sig("replay-b");
+        return;
+    }
+    let mut idx = 0u64;
+    // ---- grid sweeps: every 50 ms instant around each deadline
+    let mut complete = true;
+    for t in [1000u64, 3000] {
+        for blocked in [false, true] {
+            let mut at = t.saturating_sub(1200);
+            while at <= t + 800 {
+                idx += 1;
+                if ctx.mine(idx) {
+                    if ctx.out_of_time() {
+                        complete = false;
+                        break;
+                    }
+                    let mut rng = Rng::derive(ctx.seed, 60, idx);
+                    let c = slow_head(&mut rng, Some((t, at, blocked)));
+                    eval_case(&c, rep);
+                    rep.sig(&format!("slow-head|{}|{}|blocked={}|disc={}", cfg_sig(&c.cfg), rel(at, t), blocked, c.cfg.disc_timeout_ms));
+                }
+                at += STEP;
+            }
+        }
+    }
+    for k in [1u64, 2, 5] {
+        let mut at = (k * 1000).saturating_sub(1200);
+        while at <= k * 1000 + 800 {
+            idx += 1;
+            if ctx.mine(idx) {
+                if ctx.out_of_time() {
+                    complete = false;
+                    break;
+                }
+                let mut rng = Rng::derive(ctx.seed, 61, idx);
+                let c = keep_alive(&mut rng, Some((k, Some(at))));
+                eval_case(&c, rep);
+                rep.sig(&format!("keep-alive|{}|{}|slow={}", cfg_sig(&c.cfg), c.params["ordering"].as_str().unwrap_or(""), c.params["slow_response"]));
+            }
+            at += STEP;
+        }
+    }
+    rep.exhaustive("every 50 ms arrival instant in [deadline-1200 ms, deadline+800 ms] for the head timer (1 s, 3 s) and the keep-alive timer (1, 2, 5 s)", complete);
+
+    // ---- random timelines
+    let n = ctx.share(64_000, 1_600_000);
+    for k in 0..n {
+        if ctx.out_of_time() {
+            break;
+        }
+        let mut rng = Rng::derive(ctx.seed, 6, k * ctx.nshards + ctx.shard);
+        let case = match rng.below(10) {
+            0..=2 => slow_head(&mut rng, None),
+            3..=5 => keep_alive(&mut rng, None),
+            6 => disconnect(&mut rng),
+            _ => graceful(&mut rng, None),
+        };
+        eval_case(&case, rep);
+        let ord = match case.kind {
+            "slow-head" => format!("{}|never={}|blocked={}", rel(case.params["head_complete_ms"].as_u64().unwrap_or(0), case.cfg.req_timeout_ms.max(1)), case.params["head_never_completes"], case.params["shutdown_blocked"]),
+            "keep-alive" => format!("{}|slow={}|n={}", case.params["ordering"].as_str().unwrap_or(""), case.params["slow_response"], case.params["requests_before_gap"]),
+            "disconnect" => case.params["trigger"].as_str().unwrap_or("").to_string(),
+            _ => format!("{}|late-request={}", case.params["phase"].as_str().unwrap_or(""), case.events.iter().filter(|e| matches!(e.1, Act::Push(_)) && e.0 > case.params["signal_ms"].as_u64().unwrap_or(0)).count()),
+        };
+        rep.sig(&format!("{}|{}|{}", case.kind, cfg_sig(&case.cfg), ord));
+        if k < 4 {
+            rep.sample(case.kind, json!({"cfg": cfg_sig(&case.cfg), "params": case.params, "events": case.events.iter().map(|(t, a)| format!("{t}ms {}", a.tag())).collect::<Vec<_>>(), "horizon_ms": case.horizon_ms}));
+        }
+    }
+    let _ = acts_to_json;
 }
